@@ -21,7 +21,12 @@ image of g (determinant one) and is multiplicative up to sign on every transitio
 and on images of determinant -1.  lie.hom wrappers return what the wrapped map returns.  Storage dtype: every real matrix is also
 passed as an int64 array to the maps that accept integer input (adjoints, realification, Hermitian
 action, SO(3,1), block inclusion) and must give the float64 result; the walks in non-unimodular
-integer matrices make the adjoint images non-integral.
+integer matrices make the adjoint images non-integral.  The product law is not restricted to the
+named groups: in the non-unimodular walks (integer and Gaussian) and in GL(2,Z) every map, also
+sl2_to_so21 / sl2c_herm_action / sl2c_to_so31 (whose forms are then scaled by |det g|^2, as the spec
+states), is replayed, every real matrix must give the same image whether stored as float64 or as
+complex128, and every transition is replayed with the factors in mixed storage dtypes
+(float x complex, complex x float, int64 x complex, ...).
 Arrays of matrices: all states of a walk are stacked into composite arrays of several shapes and
 every map must return the stack of its single-matrix values and satisfy the law array-wise.
 Polynomial-identity grids: sl2_irrep(A B) = sl2_irrep(A) sl2_irrep(B) on a full grid of integer
@@ -45,6 +50,10 @@ FORM_ONLY = {"so21": np.diag([-1.0, 1, 1]), "so31": np.diag([-1.0, 1, 1, 1])}
 # maps that accept integer-dtype input on the unchanged tree (sl2_irrep / sl2_to_so21 refuse it loudly with a casting
 # error, which is not a wrong value): for these the result must not depend on the storage dtype of the matrix
 INT_LEGAL = ("adgl", "adsl", "real", "herm", "so31", "blk")
+# groups whose transitions are also replayed with the two factors in mixed storage dtypes (they contain real factors
+# of determinant -1, 2, 3 and, for m2zi, complex factors of non-unit determinant)
+MIXED_GROUPS = ("gl2z", "m2z", "m2zi")
+MIXED_MAPS = ("herm", "so31", "irrep2", "irrep3", "irrep4", "so21", "real")
 
 
 def lie():
@@ -95,10 +104,10 @@ def close(a, b, tol=TOL):
     return bool(np.abs(a - b).max(initial=0) <= tol * max(1.0, np.abs(b).max(initial=0)))
 
 
-def preserves(X, F, tol=TOL):
-    """X^T F X = F, the residual measured against the size of the terms that cancel"""
+def preserves(X, F, factor=1.0, tol=TOL):
+    """X^T F X = factor * F, the residual measured against the size of the terms that cancel"""
     X = np.asarray(X, float)
-    res = np.abs(X.T @ F @ X - F).max()
+    res = np.abs(X.T @ F @ X - factor * F).max()
     return bool(np.isfinite(res) and res <= tol * max(1.0, np.abs(X).max() ** 2 * np.abs(F).max()))
 
 
@@ -143,8 +152,10 @@ def eval_state(run, grp, names, A, obs, scale, path):
             J = FORM_ONLY[nm]
             if v.shape != J.shape or np.iscomplexobj(v):
                 return vals, ("shape:" + nm, "library value %r" % (brief(v),))
-            if not (preserves(v, J) and preserves(v.T, J)):
-                return vals, ("form_preserved:" + nm, "X^T J X = %r" % (brief(v.T @ J @ v),))
+            # the form is preserved in the named group; outside it is scaled by |det g|^2 (spec: So21Laws, So31Laws)
+            n2 = float(obs["det"][0] ** 2 + obs["det"][1] ** 2)
+            if not (preserves(v, J, n2) and preserves(v.T, J, n2)):
+                return vals, ("form_preserved:" + nm, "X^T J X = %r, |det g|^2 = %g" % (brief(v.T @ J @ v), n2))
             if not close(np.linalg.det(v), np.linalg.det(want), det_tol(v)):
                 return vals, ("determinant:" + nm, "det %r, spec %r" % (float(np.linalg.det(v)), float(np.linalg.det(want))))
             if not close(np.poly(v), np.poly(want), 1e-8):
@@ -156,6 +167,17 @@ def eval_state(run, grp, names, A, obs, scale, path):
             # a float determinant is accurate to about eps * cond(v): tolerance scaled by the conditioning
             if not close(np.linalg.det(v), 1.0, det_tol(v)):
                 return vals, ("determinant_one:" + nm, "det %r" % float(np.linalg.det(v)))
+        if not np.iscomplexobj(A):
+            # a real matrix stored as complex128 with zero imaginary part is the same matrix
+            try:
+                with warnings.catch_warnings():
+                    warnings.simplefilter("ignore")
+                    vc = num(f(A.astype(complex)))
+            except Exception as ex:
+                return vals, ("raised:complex128:" + nm, "%s: %s" % (type(ex).__name__, ex))
+            if not close(vc, v):
+                return vals, ("storage_dtype:" + nm, "complex128 storage gives %r, float64 storage gives %r" % (brief(vc), brief(v)))
+            run.evaluations += 1
         if nm.startswith(INT_LEGAL) and not np.iscomplexobj(A):
             try:
                 with warnings.catch_warnings():
@@ -180,6 +202,39 @@ def eval_state(run, grp, names, A, obs, scale, path):
                 return vals, ("hom_wrapper:" + nm, "wrapper %r, map %r" % (brief(w), brief(v)))
         run.evaluations += 1
     return vals, None
+
+
+def is_real(M):
+    return not np.iscomplexobj(M) or not np.abs(np.asarray(M).imag).max(initial=0) > 0
+
+
+def mixed_products(run, names, Gm, Sm):
+    """phi(g s) = phi(g) phi(s) with the two factors handed over in different storage dtypes"""
+    kinds = {"f": np.float64, "c": np.complex128, "i": np.int64}
+    combos = [("f", "c"), ("c", "f"), ("f", "f"), ("i", "c"), ("c", "i"), ("c", "c")]
+    for nm in names:
+        if nm not in MIXED_MAPS:
+            continue
+        f, _ = lib_map(nm)
+        for da, db in combos:
+            if (da != "c" and not is_real(Gm)) or (db != "c" and not is_real(Sm)):
+                continue
+            if "i" in (da, db) and not nm.startswith(INT_LEGAL):
+                continue
+            Ga = (np.rint(np.real(Gm)) if da == "i" else np.real(Gm) if da == "f" else Gm).astype(kinds[da])
+            Sb = (np.rint(np.real(Sm)) if db == "i" else np.real(Sm) if db == "f" else Sm).astype(kinds[db])
+            try:
+                with warnings.catch_warnings():
+                    warnings.simplefilter("ignore")
+                    lhs = num(f(Ga @ Sb))
+                    rhs = num(f(Ga.copy())) @ num(f(Sb.copy()))
+            except Exception as ex:
+                return ("raised:mixed_dtype:" + nm, "%s x %s: %s: %s" % (kinds[da].__name__, kinds[db].__name__, type(ex).__name__, ex))
+            run.evaluations += 1
+            if not close(lhs, rhs):
+                return ("homomorphism.mixed_dtype:" + nm, "factors stored as %s x %s: phi(g s) = %r, phi(g) phi(s) = %r"
+                        % (kinds[da].__name__, kinds[db].__name__, brief(lhs), brief(rhs)))
+    return None
 
 
 def pgl_checks(run, A, X, det1):
@@ -231,7 +286,7 @@ def walk(run, grp, r):
     obs, tab = parse(r)
     scale = tab["scale"]
     names = sorted(scale)
-    cplx = grp == "sl2zi"
+    cplx = grp in ("sl2zi", "m2zi")
     dim = 3 if grp in ("gl3z", "m3z") else 2
 
     def mat(rec):
@@ -325,7 +380,7 @@ def walk(run, grp, r):
                             pg2 = None
                     if not bad and K is not None:
                         ad = v2["adsl"]
-                        if not preserves(ad, K):
+                        if not preserves(ad, K, 1.0):
                             bad = ("killing_form.preserved", "Ad^T K Ad = %r" % (brief(ad.T @ K @ ad),))
                     if bad:
                         fail(p2, bad[0], bad[1], A)
@@ -339,6 +394,10 @@ def walk(run, grp, r):
                     if not close(v2[nm], prod):
                         fail(p2, "homomorphism:" + nm, "phi(g s) = %r, phi(g) phi(s) = %r" % (brief(v2[nm]), brief(prod)), A)
                         break
+                if grp in MIXED_GROUPS:
+                    bad = mixed_products(run, names, mat(obs[sk]["g"]), gens[act])
+                    if bad:
+                        fail(p2, bad[0], bad[1], A)
                 if pgl and pg is not None and pg2 is not None and gen_pgl[act] is not None:
                     prod = pg @ gen_pgl[act]
                     if not close_pm(pg2, prod):
@@ -485,16 +544,16 @@ def run(run, replay=None):
                 "evaluated in the target state and the homomorphism law evaluated with the source state's values); "
                 "distinct_nontrivial = distinct group elements reached + invertible pairs of the identity grids + samples")
     run.assumptions += [
-        "groups: SL(2,Z), GL(2,Z), GL(3,Z), SL(2,Z[i]) and monoid walks in invertible non-unimodular 2x2 / 3x3 integer "
-        "matrices (adjoint images over the denominator det g) with walks of bounded length; the real / complex continuum is "
+        "groups: SL(2,Z), GL(2,Z), GL(3,Z), SL(2,Z[i]) and monoid walks in invertible non-unimodular 2x2 / 3x3 integer and "
+        "2x2 Gaussian-integer matrices (adjoint images over the denominator det g) with walks of bounded length; the real / complex continuum is "
         "covered by integer grids and rational / Gaussian samples only",
         "sl2_to_so21 and sl2c_to_so31 are compared through conjugation-invariant data (the documentation names the "
         "target group, not a basis)",
         "o_to_pgl is exercised on single 3x3 matrices (its docstring admits that array input is not implemented)",
     ]
     # (group, MaxLen, MaxIrrep, MaxDet)
-    plan = [("sl2z", 5, 6, 6), ("gl2z", 4, 4, 4), ("gl3z", 3, 2, 2), ("sl2zi", 3, 4, 2), ("m2z", 3, 4, 4), ("m3z", 2, 2, 2)] if quick else \
-           [("sl2z", 6, 6, 6), ("gl2z", 5, 4, 4), ("gl3z", 5, 2, 2), ("sl2zi", 5, 6, 2), ("m2z", 4, 4, 4), ("m3z", 3, 2, 2)]
+    plan = [("sl2z", 5, 6, 6), ("gl2z", 4, 4, 4), ("gl3z", 3, 2, 2), ("sl2zi", 3, 4, 2), ("m2z", 3, 4, 4), ("m3z", 2, 2, 2), ("m2zi", 3, 4, 2)] if quick else \
+           [("sl2z", 6, 6, 6), ("gl2z", 5, 4, 4), ("gl3z", 5, 2, 2), ("sl2zi", 5, 6, 2), ("m2z", 4, 4, 4), ("m3z", 3, 2, 2), ("m2zi", 4, 4, 2)]
 
     def tlc(p):
         grp, ml, mi, md = p
